@@ -182,11 +182,12 @@ def _run_sx_case(case, func, res, tier, seed, known):
         for v in eng.violations:
             rr = replay_concrete(case, v["model"])
             label = v["label"]
-            reproduced = (rr["status"] == "stopped" and bool(rr["failed"])) or (
-                rr["status"] == "exception" and label.startswith("unexpected-exception")
-            )
-            if reproduced and rr["failed"]:
-                label = rr["failed"][0] if label not in rr["failed"] else label
+            if label.startswith("unexpected-exception"):
+                reproduced = rr["status"] == "exception" and label.endswith(":" + str(rr["exc"]))
+            else:
+                reproduced = (label in rr["failed"]) or (rr["status"] == "stopped" and bool(rr["failed"]))
+                if reproduced and label not in rr["failed"]:
+                    label = rr["failed"][-1]
             v["reproduced"] = reproduced
             v["replay_status"] = rr["status"]
             v["replay_exc"] = rr["exc"]
@@ -303,7 +304,7 @@ def check(prop, tier, seed, jobs=None, only=None):
     cases = mod.cases(tier, seed)
     if only:
         cases = [c for c in cases if fnmatch.fnmatchcase(f"{c.family}|{c.sig}", only)]
-    known = [k for k in load_known() if k["property"] == prop]
+    known = [k for k in load_known() if k["property"] == prop or prop in k.get("also", [])]
     jobs = jobs or min(16, os.cpu_count() or 4)
     args = [(asdict(c), tier, seed, known) for c in cases]
     # heavier cases first
